@@ -209,7 +209,7 @@ def s4_one_debit_per_fill(ctx):
     for p in normal(ps):
         cs = [e for e in p.flat_events() if e.kind == 'call' and 'Portfolio.transact_asset' in e.callee]
         where = cs[0].site if cs else ctx.fn('SimulatedBroker._execute_order').site()
-        if not ctx.require(len(cs) == 1, 'C01.S4', '_execute_order debits exactly once on path [%s]' % cond_str(p), where, '%d calls' % len(cs),
+        if not ctx.require(len(cs) == 1, 'C01.S4', '_execute_order debits exactly once on path [%s]' % cond_str(p), where, __import__('qsverif.lib', fromlist=['read_marker']).read_marker(ctx, p) + '%d calls' % len(cs),
                            key='C01.S4|count'):
             continue
         txn = cs[0].args.get('txn')
